@@ -173,7 +173,7 @@ CHECKS['C14'] = {
     'verus_units': ['parser', 'tokenizer', 'converter', 'extract'],
     'clause_prefixes': ['c14'],
     'technique': 'contract-based deductive verification (Verus) of tokenize (with its local TokenizerState), TokenLocation::extract_near and the parser\'s token cursor (Parser::new/next/current/current_location/create_error/expect_token/expect_and_consume_token, ParserError::new) extracted from /repo',
-    'claim': 'Proof for every text that tokenize cannot panic, that the line/column it keeps are the position of the consumed prefix, that every token and every tokenizer error is located inside the text (the position of some offset 0..=len) and that the token vector ends with Token::End; proof that TokenLocation::extract_near cannot panic for any location and text (every word range lies inside the line, no index underflow); proof that parse / parse_select / parse_multiple_create_table / parse_create_table / parse_define_column / parse_type (a statement is accepted only if every token up to End was consumed; every clause loop keeps the cursor on a token) and the operand-level functions (parse_primary_expression, parse_identifier_expression, parse_list, parse_arguments, consume_identifier / consume_string / consume_int, expect_and_consume_operator) keep the cursor on a token and fail with a located error instead of panicking; proof (cursor kernel) that once the first next() succeeded the parser cursor stays inside the token vector, next() at the end is an error and not a step, current()/current_location() never index out of bounds and every error created carries the location of a real token. "Any text yields a statement or a located error" for the recursive-descent grammar functions and the tree converter is NOT decided.',
+    'claim': 'Proof for every text that parse_str (tokenize, then the recursive-descent parser) returns a parse tree or an error whose position lies inside the text: every parser function carries the postcondition that an error points at a token, every token is located inside the text; proof that tokenize cannot panic, that the line/column it keeps are the position of the consumed prefix, that every token and every tokenizer error is located inside the text (the position of some offset 0..=len) and that the token vector ends with Token::End; proof that TokenLocation::extract_near cannot panic for any location and text (every word range lies inside the line, no index underflow); proof that parse / parse_select / parse_multiple_create_table / parse_create_table / parse_define_column / parse_type (a statement is accepted only if every token up to End was consumed; every clause loop keeps the cursor on a token) and the operand-level functions (parse_primary_expression, parse_identifier_expression, parse_list, parse_arguments, consume_identifier / consume_string / consume_int, expect_and_consume_operator) keep the cursor on a token and fail with a located error instead of panicking; proof (cursor kernel) that once the first next() succeeded the parser cursor stays inside the token vector, next() at the end is an error and not a step, current()/current_location() never index out of bounds and every error created carries the location of a real token. NOT decided: termination of the parser (recursion depth), the arms of the tree converter that are not under contract, and the precedence-climbing function as a callee (its body is verified; as a callee it is a stand-in that is ASSUMED to keep the cursor on a token and to report errors at tokens).',
     'note': 'Trusted: Peekable<Chars> as a cursor over the character sequence (VChars), Unicode class predicates uninterpreted (a line break is not alphanumeric), str::lines().nth / chars().collect / String::from_iter(&v[a..b]) / format! as stand-ins with the slice-range precondition, Vec length <= usize::MAX. Termination of the tokenizer loops is not proved. Unproved: all parse_* functions except parse_unary_operator, parser_tree_converter (transform_call_aggregate), TableDefinition::new; the panics found there (extract_near underflow, empty JSON path, string_agg arity) were repaired and are demonstrated by replays.',
     'level': 'proof',
     'explanation': 'Tokenizer: loop invariant at_offset(state, text, n) (rest of the iterator = text.skip(n), line = number of line breaks and column = characters after the last line break of text.take(n)); next_char and add carry it in universally quantified postconditions. Cursor safety is the invariant 0 <= index < tokens.len() established by next() and required by every accessor.',
